@@ -87,12 +87,27 @@ class SimQueue(_Named):
     def __init__(self, maxsize=0):
         self._mkname('Queue')
         self._q = deque()
+        self.maxsize = maxsize
+
+    def _full(self):
+        return self.maxsize > 0 and len(self._q) >= self.maxsize
 
     def put(self, item, block=True, timeout=None):
-        _sync('queue.put', self.simname)
+        import queue as _q
+        if not block:
+            _sync('queue.put_nowait', self.simname)
+            if self._full():
+                raise _q.Full
+            self._q.append(item)
+            return
+        timed = _sync('queue.put', self.simname, pred=lambda: not self._full(),
+                      timeout_ok=timeout is not None, yielding=timeout is not None)
+        if timed and self._full():
+            raise _q.Full
         self._q.append(item)
 
-    put_nowait = put
+    def put_nowait(self, item):
+        return self.put(item, block=False)
 
     def get(self, block=True, timeout=None):
         import queue as _q
@@ -113,6 +128,10 @@ class SimQueue(_Named):
     def empty(self):
         _sync('queue.empty', self.simname)
         return not self._q
+
+    def full(self):
+        _sync('queue.full', self.simname)
+        return self._full()
 
     def qsize(self):
         _sync('queue.qsize', self.simname)
@@ -309,6 +328,94 @@ class SimSemaphore(_Named):
         self.release()
 
 
+class SimThread:
+    """Stands in for threading.Thread where the server creates plain threads (the seat threads, a subclass defined at
+    import time, are handled by the installer): start() makes the thread a managed task of the kernel."""
+    _n = 0
+
+    def __init__(self, group=None, target=None, name=None, args=(), kwargs=None, *, daemon=None):
+        if isinstance(self, _real_threading.Thread):
+            # `Thread.__init__(self, ...)` written out inside a subclass of the real Thread (the seat threads)
+            _real_threading.Thread.__init__(self, group=group, target=target, name=name, args=args, kwargs=kwargs, daemon=daemon)
+            return
+        SimThread._n += 1
+        self._target, self._args, self._kwargs = target, args, kwargs or {}
+        self.name = name or f'Thread-sim-{SimThread._n}'
+        self.daemon = bool(daemon)
+        self._task = None
+
+    def run(self):
+        if self._target is not None:
+            self._target(*self._args, **self._kwargs)
+
+    def start(self):
+        k = K()
+        self._task = k.spawn(self.run, f'helper-{self.name}', required=False)
+        k.point('thread.start', self._task.name)
+
+    def join(self, timeout=None):
+        t = self._task
+        if t is None:
+            return
+        K().point('thread.join', t.name, pred=lambda: t.state == 'done', timeout_ok=timeout is not None, yielding=timeout is not None)
+
+    def is_alive(self):
+        t = self._task
+        K().point('thread.is_alive', t.name if t else None)
+        return t is not None and t.state != 'done'
+
+    def setDaemon(self, d):
+        self.daemon = d
+
+
+# ---------------------------------------------------------------------------------------------
+# real primitive objects met inside the simulation - instances of SUBCLASSES the library defines at import time (the
+# installer can only replace names looked up at call time): their methods are routed to a lazily created simulated twin
+# while a managed task calls them
+
+def _twin(obj, make):
+    t = obj.__dict__.get('_sim_twin')
+    if t is None or t[0] is not K():
+        t = (K(), make())
+        obj.__dict__['_sim_twin'] = t
+    return t[1]
+
+
+def route_real_primitives():
+    """Returns an undo function."""
+    import queue as _queue
+    import threading as _threading
+    saved = []
+
+    def route(cls, name, make, call):
+        orig = cls.__dict__.get(name)
+        if orig is None:
+            return
+
+        def wrapper(self, *a, **kw):
+            # only SUBCLASSES defined by the library are routed: the interpreter itself uses plain Event/Queue objects
+            # (Thread.start() waits on one), and those must keep their real behaviour
+            if type(self) is not cls and (type(self).__module__ or '').startswith('bridge_env'):
+                k = K()
+                if k is not None and k.current() is not None:
+                    return call(_twin(self, lambda: make(self)), *a, **kw)
+            return orig(self, *a, **kw)
+        saved.append((cls, name, orig))
+        setattr(cls, name, wrapper)
+
+    for n in ('put', 'get', 'put_nowait', 'get_nowait', 'empty', 'full', 'qsize'):
+        route(_queue.Queue, n, lambda q: SimQueue(q.maxsize), getattr(SimQueue, n))
+    for n in ('set', 'clear', 'wait', 'is_set'):
+        route(_threading.Event, n, lambda e: SimEvent(), getattr(SimEvent, n))
+    for n in ('wait', 'reset', 'abort'):
+        route(_threading.Barrier, n, lambda b: SimBarrier(b._parties, b._action, b._timeout), getattr(SimBarrier, n))
+
+    def undo():
+        for cls, name, orig in reversed(saved):
+            setattr(cls, name, orig)
+    return undo
+
+
 class SimTime:
     """Replacement for the `time` module inside the server: sleep() is only a scheduling point."""
 
@@ -439,7 +546,16 @@ class SimSocket(_Named):
         k = K()
         self.net.sends.append((k.steps if k else 0, self.conn.id, 'c2s' if self.side == 'client' else 's2c', data))
 
-    send = sendall
+    def send(self, data, flags=0):
+        """socket.send may write only part of the buffer and says how much: with split deliveries configured it writes
+        the first chunk only (code that ignores the return value loses the rest - as it can on a real socket)."""
+        data = bytes(data)
+        if self.closed or not self.net.split or len(data) <= 1:
+            self.sendall(data)
+            return len(data)
+        n = self.net.next_chunks(len(data))[0]
+        self.sendall(data[:n])
+        return n
 
     def recv(self, n, flags=0):
         if self.closed:
